@@ -619,11 +619,104 @@ def apply_field_aliases(j):
     return amap
 
 
+_FN_TABLE = None
+
+
+def _fn_table():
+    global _FN_TABLE
+    if _FN_TABLE is None:
+        p = os.path.join(os.path.dirname(os.path.abspath(__file__)), 'tables', 'private_fns.json')
+        try:
+            with open(p) as f:
+                _FN_TABLE = json.load(f)
+        except OSError:
+            _FN_TABLE = {}
+    return _FN_TABLE
+
+
+def apply_fn_aliases(j):
+    """Rename-proofing for private functions (see tools/mkfntable.py).  Returns {actual path: reviewed path}."""
+    tab = _fn_table().get(j.get('crate'), {})
+    if not tab:
+        return {}
+    present = {fn['path']: fn for fn in j['fns']}
+    missing = [p for p in tab if p not in present]
+    if not missing:
+        return {}
+    amap = {}
+    taken = set()
+    for p in sorted(missing):
+        parent = p.rsplit('::', 1)[0]
+        want = tab[p]
+        cands = [q for q, fn in present.items() if q not in tab and q not in taken and fn.get('vis') != 'pub' and '{' not in q and
+                 q.rsplit('::', 1)[0] == parent and fn.get('inputs', []) == want['inputs'] and fn.get('output', '') == want['output']]
+        # the reviewed name must be unambiguous too: no other missing function with the same parent and signature
+        rivals = [m for m in missing if m != p and m.rsplit('::', 1)[0] == parent and tab[m] == want]
+        if len(cands) == 1 and not rivals:
+            amap[cands[0]] = p
+            taken.add(cands[0])
+    if not amap:
+        return {}
+
+    def ren(v):
+        if not isinstance(v, str):
+            return v
+        for q, p in amap.items():
+            if v == q:
+                return p
+            if v.startswith(q + '::{'):
+                return p + v[len(q):]
+        return v
+    # generics-free forms for callee_full (lifetimes printed as '_)
+    def strip(x):
+        out, depth = [], 0
+        for ch in x:
+            if ch == '<':
+                depth += 1
+            elif ch == '>':
+                depth -= 1
+            elif depth == 0:
+                out.append(ch)
+        return ''.join(out).replace('::::', '::')
+    short = {strip(q): (q, p) for q, p in amap.items()}
+    for fn in j['fns']:
+        if fn['path'] in amap:
+            fn['actual_path'] = fn['path']
+            fn['path'] = amap[fn['path']]
+
+    def walk(x):
+        if isinstance(x, dict):
+            for k in ('id', 'owner_fn', 'callee', 'resolved', 'closure', 'fn', 'fn_full'):
+                if k in x:
+                    x[k] = ren(x[k])
+            cf = x.get('callee_full')
+            if isinstance(cf, str) and strip(cf) in short:
+                q, p = short[strip(cf)]
+                x['callee_full'] = cf.rsplit('::', 1)[0] + '::' + p.rsplit('::', 1)[1]
+                if x.get('method') == q.rsplit('::', 1)[1]:
+                    x['method'] = p.rsplit('::', 1)[1]
+            for v in x.values():
+                walk(v)
+        elif isinstance(x, list):
+            for v in x:
+                walk(v)
+    for b in j['bodies']:
+        old_id = b.get('id')
+        walk(b)
+        if b.get('id') != old_id and b.get('kind') != 'closure' and 'name' in b:
+            b['name'] = b['id'].rsplit('::', 1)[1]
+    for im in j.get('impls', []):
+        if isinstance(im.get('items'), list):
+            im['items'] = [ren(v) for v in im['items']]
+    return amap
+
+
 class Facts:
     def __init__(self, path):
         with open(path) as f:
             self.j = json.load(f)
         self.field_aliases = apply_field_aliases(self.j)
+        self.fn_aliases = apply_fn_aliases(self.j)
         self.path = path
         self.crate = self.j['crate']
         self.features = self.j.get('features', [])
